@@ -42,6 +42,10 @@ func PropC16(c *vs.Case, f Factory) error {
 	if selMode&2 == 2 {
 		scn.Cfg.ParentAnnSel = map[string]string{"decorate": "please"}
 	}
+	if selMode != 0 && c.Bool() {
+		scn.Cfg.SelAsExpressions = true
+		c.Class("selectors-as-expressions")
+	}
 	meta := metaOfMap(scn.Parent)
 	lbl := map[string]any{"foreign": "f", "team": "a"}
 	ann := map[string]any{"foreign": "f"}
@@ -79,6 +83,7 @@ func PropC16(c *vs.Case, f Factory) error {
 	pd := env.W.Sim.Def(scn.Cfg.ParentResource)
 	steps := 2 + c.Int(4)
 	for s := 0; s < steps; s++ {
+		edited := false
 		switch c.Weighted(5, 2, 2, 1, 1) {
 		case 4: // the finalize hook is added to / removed from the decorator
 			scn.Cfg.FinalizeHook = !scn.Cfg.FinalizeHook
@@ -97,6 +102,7 @@ func PropC16(c *vs.Case, f Factory) error {
 				}
 			})
 			log = append(log, "toggle enabled label")
+			edited = true
 		case 2: // the hook changes its mind
 			scn.Prog.Labels = genStringMapPatch(c, nil, "decorated")
 			scn.Prog.Annotations = genStringMapPatch(c, nil, "decorated")
@@ -108,8 +114,21 @@ func PropC16(c *vs.Case, f Factory) error {
 				o["spec"].(map[string]any)["other"] = fmt.Sprintf("edit%d", s)
 			})
 			log = append(log, "spec edited")
+			edited = true
 		}
-		env.W.SyncAll()
+		stale := edited && c.Prob(1, 4)
+		if stale {
+			// the controller's cache has not seen the latest edit of the target yet
+			for _, r := range env.W.ResourceNames() {
+				if r != scn.Cfg.ParentResource {
+					env.W.SyncCache(r)
+				}
+			}
+			log = append(log, "target cache is stale")
+			c.Class("stale-target-cache")
+		} else {
+			env.W.SyncAll()
+		}
 		before := env.Parent()
 		if before == nil {
 			break
@@ -119,6 +138,13 @@ func PropC16(c *vs.Case, f Factory) error {
 			return vs.Violf("C16/panic", "panic: %s", t.Panic)
 		}
 		after := env.Parent()
+		if err := judgeTargetWrites(env, t, fin); err != nil {
+			return withTrace(err, t)
+		}
+		if stale {
+			// decisions were taken on an old view: only the per-write rules apply
+			continue
+		}
 		matches := env.controllerSelectorMatches(before)
 		hasFin := hasFinalizer(before, fin)
 		var calls []*HookExchange
@@ -254,6 +280,68 @@ func PropC16(c *vs.Case, f Factory) error {
 	}
 	if len(env.CacheViolations) > 0 {
 		return vs.Violf("C17/cache-mutated", "shared cache objects changed during a sync: %v", env.CacheViolations)
+	}
+	return nil
+}
+
+// judgeTargetWrites: every accepted write to the target changes nothing but label and
+// annotation keys the hook named, the status, and the decorator's own finalizer -
+// judged on the live object right before and right after each write.
+func judgeTargetWrites(e *Env, t *SyncTrace, fin string) error {
+	named := map[string]map[string]bool{"labels": {}, "annotations": {}}
+	for _, h := range t.Hooks {
+		if h.URL == CustomizeURL || h.Response.Code != 200 {
+			continue
+		}
+		resp, err := vs.DecodeJSON(h.Response.Body)
+		if err != nil {
+			continue
+		}
+		for f := range named {
+			m, _ := resp[f].(map[string]any)
+			for k := range m {
+				named[f][k] = true
+			}
+		}
+	}
+	for _, r := range t.Reqs {
+		if !r.Mutating() || !r.Accepted() || r.Def.Resource != e.Scn.Cfg.ParentResource || r.Pre == nil || r.Post == nil {
+			continue
+		}
+		if !vs.JSONEqual(r.Pre["spec"], r.Post["spec"]) {
+			return vs.Violf("C16/spec-modified", "%s changed the target's spec from %v to %v", r.String(), r.Pre["spec"], r.Post["spec"])
+		}
+		pm, qm := metaOfMap(vs.CopyMap(r.Pre)), metaOfMap(vs.CopyMap(r.Post))
+		if !vs.JSONEqual(pm["ownerReferences"], qm["ownerReferences"]) {
+			return vs.Violf("C16/foreign-metadata-modified", "%s changed the target's ownerReferences from %v to %v", r.String(), pm["ownerReferences"], qm["ownerReferences"])
+		}
+		for f, keys := range named {
+			a, _ := pm[f].(map[string]any)
+			b, _ := qm[f].(map[string]any)
+			for k := range a {
+				if !keys[k] && !vs.JSONEqual(a[k], b[k]) {
+					return vs.Violf("C16/foreign-metadata-modified", "%s changed %s[%q] from %v to %v, a key the hook did not name", r.String(), f, k, a[k], b[k])
+				}
+			}
+			for k := range b {
+				if _, had := a[k]; !had && !keys[k] {
+					return vs.Violf("C16/foreign-metadata-modified", "%s added %s[%q]=%v, a key the hook did not name", r.String(), f, k, b[k])
+				}
+			}
+		}
+		strip := func(m map[string]any) []any {
+			var out []any
+			fs, _ := m["finalizers"].([]any)
+			for _, x := range fs {
+				if x != fin {
+					out = append(out, x)
+				}
+			}
+			return out
+		}
+		if !vs.JSONEqual(strip(pm), strip(qm)) {
+			return vs.Violf("C16/foreign-metadata-modified", "%s changed finalizers other than %s: %v -> %v", r.String(), fin, pm["finalizers"], qm["finalizers"])
+		}
 	}
 	return nil
 }
